@@ -353,6 +353,84 @@ func observe(m smf.Message, acc *Acc, poison bool) (pan string) {
 	return pan
 }
 
+// partial asks the accessors with several outputs again with every subset of the outputs not wanted (nil): the answer
+// and every output that is wanted must be what the call with all outputs gave.
+func partial(m smf.Message, acc *Acc) bool {
+	ptr := func(want bool, p *uint8) *uint8 {
+		if want {
+			return p
+		}
+		return nil
+	}
+	bptr := func(want bool, p *bool) *bool {
+		if want {
+			return p
+		}
+		return nil
+	}
+	same := func(mask int, ok, ok0 bool, got, full []int) bool {
+		if ok != ok0 {
+			return false
+		}
+		if !ok {
+			return true
+		}
+		for i := range got {
+			if mask&(1<<i) != 0 && got[i] != full[i] {
+				return false
+			}
+		}
+		return true
+	}
+	bi := func(b bool) int {
+		if b {
+			return 1
+		}
+		return 0
+	}
+	for mask := 0; mask < 32; mask++ {
+		w := func(i int) bool { return mask&(1<<i) != 0 }
+		if mask < 16 {
+			var n, d, c, b uint8 = 0x5A, 0x5A, 0x5A, 0x5A
+			ok := m.GetMetaTimeSig(ptr(w(0), &n), ptr(w(1), &d), ptr(w(2), &c), ptr(w(3), &b))
+			full := acc.Timesig.V
+			if len(full) != 4 {
+				full = []int{0, 0, 0, 0}
+			}
+			if !same(mask, ok, acc.Timesig.Ok, b2i(n, d, c, b), full) {
+				return false
+			}
+			var k, num uint8 = 0x5A, 0x5A
+			maj, flat := true, true
+			ok = m.GetMetaKeySig(ptr(w(0), &k), ptr(w(1), &num), bptr(w(2), &maj), bptr(w(3), &flat))
+			if !same(mask, ok, acc.Keysig.Ok, []int{int(k), int(num), bi(maj), bi(flat)}, []int{acc.Keysig.Key, acc.Keysig.Num, bi(acc.Keysig.Major), bi(acc.Keysig.Flat)}) {
+				return false
+			}
+		}
+		if mask < 4 {
+			var n, d uint8 = 0x5A, 0x5A
+			ok := m.GetMetaMeter(ptr(w(0), &n), ptr(w(1), &d))
+			full := acc.Meter.V
+			if len(full) != 2 {
+				full = []int{0, 0}
+			}
+			if !same(mask, ok, acc.Meter.Ok, b2i(n, d), full) {
+				return false
+			}
+		}
+		var h, mi, s, f, ff uint8 = 0x5A, 0x5A, 0x5A, 0x5A, 0x5A
+		ok := m.GetMetaSMPTEOffsetMsg(ptr(w(0), &h), ptr(w(1), &mi), ptr(w(2), &s), ptr(w(3), &f), ptr(w(4), &ff))
+		full := acc.Smpte.V
+		if len(full) != 5 {
+			full = []int{0, 0, 0, 0, 0}
+		}
+		if !same(mask, ok, acc.Smpte.Ok, b2i(h, mi, s, f, ff), full) {
+			return false
+		}
+	}
+	return true
+}
+
 func emptyAcc() Acc {
 	s := AccS{S: hx.B{}}
 	v := AccV{V: []int{}}
@@ -392,6 +470,11 @@ func run(c *Call) {
 			pan = pan2
 		}
 		stable = reflect.DeepEqual(acc, acc2)
+		if pan == "" {
+			if p := hx.Catch(func() { stable = stable && partial(m, &acc) }); p != "" {
+				pan = "accessor with some outputs nil: " + p
+			}
+		}
 	}()
 	select {
 	case <-done:
